@@ -774,6 +774,8 @@ const DE_ATTR_INSERTS: &[&str] = &[
     " xsi:nil=\"false\"", " k=\"dup\" k=\"dup2\"", " xmlns:xsi=\"http://www.w3.org/2001/XMLSchema-instance\" xsi:nil=\"false\" xsi:nil=\"true\"",
     " xsi:nil=\"0\" xsi:nil=\"1\"", " xsi:nil=\"x\" xsi:nil=\"true\" xmlns:xsi=\"http://www.w3.org/2001/XMLSchema-instance\"", " xsi:nil=\"true\" xsi:nil=\"false\"", " a=b", " a", " =\"v\"", " x=\"1\"", " id='2'", " xmlns=\"u\"", " xmlns:p=\"u\"",
     " p:nil=\"true\" xmlns:p=\"http://www.w3.org/2001/XMLSchema-instance\"", " k=\"&lt;\"", " k=\"&bad;\"", " a='", " list=\"1 2  3\"",
+    // names that are a beginning, the whole, or a continuation of the reserved ones
+    " xml=\"1\"", " xm=\"1\"", " xml:=\"1\"", " xml:space=\"preserve\"", " xmlnsx=\"u\"", " xmlns:=\"u\"", " x=\"\"", " :a=\"1\"", " a:=\"1\"", " xsi=\"1\"", " xsi:=\"true\"", " :nil=\"true\"",
 ];
 
 /// naive lexer: `<...>` runs and the text between them (good enough to find mutation sites)
